@@ -23,12 +23,23 @@ ACCENTS = set("'`^\"=.")   # not '~': BibTeX and the code read a tie after a bac
 def alpha_name(text):
     """text -> tokens (None if the name leaves the alphabet of C13: backslash before blank/brace/comma/end)."""
     toks, spans, i, n = [], [], 0, len(text)
+    depth = 0
     while i < n:
         c = text[i]
+        if c == "{":
+            depth += 1
+        elif c == "}":
+            depth = max(0, depth - 1)
         if c == "\\":
             if i + 1 >= n:
                 return None
             d = text[i + 1]
+            if depth > 0 and d in " ~\t\r\n":
+                # inside a group nothing separates words: a backslash before a blank or a tie is a character like any other
+                toks.append("Z")
+                spans.append((i, i + 1))
+                i += 1
+                continue
             if d.isalpha():
                 toks.append("EU" if d.isupper() else "EL")
             elif d in ACCENTS:
@@ -175,7 +186,7 @@ def report(chk, clause, text, got, want):
 
 def random_name(rnd):
     up = ["Knuth", "Donald", "E.", "Jean", "{Foo Bar}", "{\\'E}douard", "\\'Etienne", "Å", "III", "AA", "{\\OE}uvre", "O'Neil", "X-Y",
-          "{Barnes and Noble}", "{Simon AND Schuster, Inc.}"]
+          "{Barnes and Noble}", "{Simon AND Schuster, Inc.}", "{Hewlett\\ Packard}", "Jo{\\~a}o", "Mu{\\~n}oz", "{a\\\tb}"]
     lo = ["de", "la", "van", "der", "von", "{\\'e}s", "\\'e", "d'", "bb", "dd", "{de Geus and sons}"]
     zz = ["{von}", "12", "{AA}", "{}", "-", "{\\relax}", "...", "\u00a0x", "x\u00a0", "\x0cJean\u2003", "\x0b"]
     n = rnd.randint(1, 12)
